@@ -274,7 +274,7 @@ Section MAIN.
     apply andb_prop in Hhere as [Hhere Hrw].
     unfold here_ok in Hhere. cbn [core_of] in Hhere.
     apply andb_prop in Hhere as [Hhere Hnodup].
-    apply andb_prop in Hhere as [Hhere Hpat]. apply andb_prop in Hhere as [Hhere Hsmall].
+    apply andb_prop in Hhere as [Hhere Hsmall].
     apply andb_prop in Hhere as [Hempty Hexcl].
     set (S := Sch c n one any all it props ap) in *.
     (* sub-results of the compositions *)
